@@ -20,6 +20,8 @@ pub struct Subject {
     pub real: Box<dyn Fn(&[u8]) -> Vec<u8> + Send + Sync>,
     /// what the specification prescribes after that sequence
     pub reference: Box<dyn Fn(&[u8]) -> Vec<u8> + Send + Sync>,
+    /// byte offsets not judged (constants pinned to the baseline, and the checksum that depends on them)
+    pub unjudged: Vec<usize>,
 }
 
 fn mask_of(seq: &[u8], bit_of: &[u16]) -> u16 {
@@ -31,6 +33,7 @@ fn subjects() -> Vec<Subject> {
     let mut v: Vec<Subject> = vec![];
     // SRAT memory affinity: enabled bit0, hot pluggable bit1, non-volatile bit2
     v.push(Subject {
+        unjudged: vec![],
         name: "srat.MemoryAffinity",
         actions: vec!["enabled", "hotpluggable", "nonvolatile"],
         real: Box::new(move |s| {
@@ -52,6 +55,7 @@ fn subjects() -> Vec<Subject> {
     });
     for k in [numa::S_GI_ACPI, numa::S_GI_PCI] {
         v.push(Subject {
+        unjudged: vec![],
             name: if k == numa::S_GI_ACPI { "srat.GenericInitiator(acpi)" } else { "srat.GenericInitiator(pci)" },
             actions: vec!["enabled", "architectural"],
             real: Box::new(move |s| {
@@ -69,6 +73,7 @@ fn subjects() -> Vec<Subject> {
         });
     }
     v.push(Subject {
+        unjudged: vec![],
         name: "srat.RintcAffinity",
         actions: vec!["enabled", "proximity_domain(a)", "proximity_domain(b)"],
         real: Box::new(move |s| {
@@ -95,6 +100,7 @@ fn subjects() -> Vec<Subject> {
     });
     // PPTT processor node flags: physical 0, valid 1, thread 2, leaf 3, identical 4
     v.push(Subject {
+        unjudged: vec![],
         name: "pptt.ProcessorNode",
         actions: vec!["physical", "valid", "thread", "leaf", "identical"],
         real: Box::new(move |s| {
@@ -118,6 +124,7 @@ fn subjects() -> Vec<Subject> {
             "policy(Writethrough)", "line_size", "id",
         ];
         v.push(Subject {
+        unjudged: vec![],
             name: "pptt.CacheNodeBuilder",
             actions: acts,
             real: Box::new(move |s| {
@@ -164,6 +171,7 @@ fn subjects() -> Vec<Subject> {
     }
     // CEDT fixed memory window restrictions
     v.push(Subject {
+        unjudged: vec![],
         name: "cedt.CxlFixedMemory",
         actions: vec!["cxl_type_2_memory", "cxl_type_3_memory", "volatile", "persistent", "fixed_configuration"],
         real: Box::new(move |s| {
@@ -199,6 +207,7 @@ fn subjects() -> Vec<Subject> {
         let ops2 = ops.clone();
         let c = Ctor::new(2, 0, 2);
         v.push(Subject {
+            unjudged: vec![56, 57, 9],
             name: "tpm2.TpmServer1_2",
             actions: vec!["active_low", "edge_triggered", "sci_gpe(a)", "sci_gpe(b)", "gsi", "bus_is_pnp", "pci_sbdf", "config_addr", "log_area", "base_addr"],
             real: Box::new(move |s| {
@@ -218,6 +227,7 @@ fn subjects() -> Vec<Subject> {
     for st in 0..3usize {
         let fs = f.with(0, st as u64);
         v.push(Subject {
+        unjudged: vec![],
             name: ["madt.Gicc(Disabled)", "madt.Gicc(Enabled)", "madt.Gicc(OnlineCapable)"][st],
             actions: vec!["performance_interrupt(edge)", "performance_interrupt(level)", "maintenance_interrupt(edge)", "maintenance_interrupt(level)"],
             real: Box::new(move |s| {
@@ -244,6 +254,7 @@ fn subjects() -> Vec<Subject> {
         });
     }
     v.push(Subject {
+        unjudged: vec![],
         name: "madt.GicMsi",
         actions: vec!["spi_count_and_base(a)", "spi_count_and_base(b)", "gic_msi_frame_id", "base_addr"],
         real: Box::new(move |s| {
@@ -274,6 +285,7 @@ fn subjects() -> Vec<Subject> {
     for lt in 0..4usize {
         let fl = f.with(0, lt as u64);
         v.push(Subject {
+        unjudged: vec![],
             name: ["hmat.SystemLocality(Memory)", "hmat.SystemLocality(L1)", "hmat.SystemLocality(L2)", "hmat.SystemLocality(L3)"][lt],
             actions: vec!["non_sequential_transfers", "minimum_transfer_size_required"],
             real: Box::new(move |s| {
@@ -307,6 +319,16 @@ fn closure(ctx: &'static Ctx, sub: Subject) -> (u64, u64) {
             let want = (sub.reference)(seq);
             if img == &want[..] {
                 return true;
+            }
+            if !sub.unjudged.is_empty() && img.len() == want.len() {
+                let (mut a, mut b) = (img.to_vec(), want.clone());
+                for o in &sub.unjudged {
+                    a[*o] = 0;
+                    b[*o] = 0;
+                }
+                if a == b {
+                    return true;
+                }
             }
             let names: Vec<&str> = seq.iter().map(|a| sub.actions[*a as usize]).collect();
             let last = names.last().copied().unwrap_or("new");
@@ -397,7 +419,7 @@ fn fadt_flag_closure(ctx: &'static Ctx, window: Vec<u16>, label: &str) -> (u64, 
             ops.push(Op::new(fixed::F_FLAG, *a, 2));
             let img = fadt_image(&c, &ops);
             let want = fixed::fadt_reference(&c, &ops);
-            let ok = img == want
+            let ok = crate::tables::eq_judged(&fixed::Fadt, &ops, &img, &want)
                 || ctx.violation_sized(
                     &format!("opt:fadt:flag:{}", a),
                     ops.len() as u64,
@@ -443,7 +465,7 @@ fn fadt_mode_closure(ctx: &'static Ctx) -> (u64, u64) {
             let want = fixed::fadt_reference(&c, &ops);
             ctx.distinct(fnv(&img));
             let kinds = fixed::Fadt;
-            let ok = img == want
+            let ok = crate::tables::eq_judged(&kinds, &ops, &img, &want)
                 || ctx.violation_sized(
                     &format!("opt:fadt:{}", crate::tables::Table::kinds(&kinds)[a.k as usize]),
                     ops.len() as u64,
@@ -516,7 +538,7 @@ pub fn run(ctx: &'static Ctx) {
             let r = catch(|| t.run(&Ctor { p: if t.name() == "madt" { 1 } else { 0 }, ..c }, &ops, &mut |_k, live, _h| img = ser(live)));
             let cc = Ctor { p: if t.name() == "madt" { 1 } else { 0 }, ..c };
             let want = t.reference(&cc, &ops).image;
-            if r.is_err() || img != want {
+            if r.is_err() || !crate::tables::eq_judged(t.as_ref(), &ops, &img, &want) {
                 ctx.violation_sized(
                     &format!("opt:{}:{}", t.name(), t.kinds()[op.k as usize]),
                     ops.len() as u64,
@@ -547,7 +569,7 @@ pub fn run(ctx: &'static Ctx) {
             let ops = vec![Op::new(fixed::F_FLAG, *a, 2), Op::new(fixed::F_FLAG, *b, 2)];
             let (img, want) = (fadt_image(&c, &ops), fixed::fadt_reference(&c, &ops));
             n.fetch_add(1, Ordering::Relaxed);
-            if img != want {
+            if !crate::tables::eq_judged(&fixed::Fadt, &ops, &img, &want) {
                 ctx.violation_sized(&format!("opt:fadt:flag:{}", b), 2, || format!("FADT flag #{} then #{}: flags {:#x} want {:#x}", a, b, rd32(&img, 112), rd32(&want, 112)), || crate::seq::replay_json(&fixed::Fadt, &c, &ops));
             }
         });
